@@ -10,5 +10,7 @@ open RawPanelVerif.C03
 #print axioms map_line
 #print axioms register_line
 #print axioms encOut_no_lf
+#print axioms encOut_sound_full
+#print axioms encOut_sound_full_approx
 #print axioms encOut_sound
 #print axioms encOut_sound_approx
